@@ -290,4 +290,39 @@ theorem parseRangeHeader_set (v : Variant) (size : Nat) (s : Spec) (rest : List 
     Bool.false_eq_true, ↓reduceIte, List.mapM_cons, hys, strip_none _ (spec_noWs s)]
   cases parseRange v size s.str <;> simp
 
+theorem render_eq_renderWith (v : Variant) (file : Bytes) (isHead : Bool) (hdr : Option Str) :
+    render v file isHead hdr = renderWith v file.length (nodeRead file) isHead hdr := rfl
+
+theorem nodeRead_sliceReader (file : Bytes) : SliceReader file (nodeRead file) :=
+  ⟨by simp [nodeRead], fun _ _ _ _ => rfl⟩
+
+/-- over any node whose `read` is a slice reader the repaired `render` answers exactly as over the in-memory file -/
+theorem renderWith_sliceReader (file : Bytes) (rd : Nat → Option Nat → Bytes) (hrd : SliceReader file rd)
+    (isHead : Bool) (hdr : Option Str) :
+    renderWith .fixed file.length rd isHead hdr = render .fixed file isHead hdr := by
+  cases hdr with
+  | none => simp [render, renderWith, hrd.1, nodeRead]
+  | some h =>
+    simp only [render, renderWith]
+    by_cases he : h.isEmpty
+    · simp [he, hrd.1, nodeRead]
+    · simp only [he, Bool.false_eq_true, ↓reduceIte]
+      cases hp : parseRangeHeader .fixed file.length h with
+      | none => simp [hrd.1, nodeRead]
+      | some l =>
+        cases l with
+        | nil => simp [hrd.1, nodeRead]
+        | cons p ps =>
+          obtain ⟨a, b⟩ := p
+          obtain ⟨r, hr⟩ := parseRangeHeader_head _ _ _ _ _ hp
+          obtain ⟨h0, hab⟩ := parseRange_fixed_bounds _ _ _ _ hr
+          simp only
+          by_cases hge : a ≥ (file.length : Int)
+          · simp [hge]
+          · simp only [hge, ↓reduceIte]
+            cases isHead
+            · have := hrd.2 (max 0 a).toNat (min ((file.length : Int) - 1) b - max 0 a + 1).toNat (by omega) (by omega)
+              simp [this, nodeRead]
+            · simp
+
 end Tahoe.Web
